@@ -43,7 +43,7 @@ VARIABLES cfg,      \* configuration of the running store
           rq,       \* [Origins -> [Names -> Nil | [kind, old]]]     requests in flight at the service client, by who sent them
           call,     \* [Callers -> Nil | [kind, name, own, cancelled, start]]
           now,
-          hist,     \* history: [served, inst, supplied]
+          hist,     \* history: [served, inst, supplied] and the store's metrics [polls, pollErrs, fetches]
           out       \* output only: what just became observable
 
 vars == <<cfg, svc, m, handles, cache, phase, closed, ini, poll, lk, rq, call, now, hist, out>>
@@ -63,7 +63,9 @@ Origins == {"init", "poll", "lookup"}       \* a poll and a lookup may each have
 NoReqs == [b \in Origins |-> [n \in Names |-> Nil]]
 ReqsBy(b) == {k \in Names : rq[b][k] # Nil}
 
-NoCfg == [declared |-> {}, allowLookup |-> FALSE, expiry |-> 0, hasCache |-> FALSE, fileClient |-> FALSE, auto |-> FALSE]
+\* (structs: the names declared through tagged struct fields, one per field, in any order; they are part of `declared`)
+NoCfg == [declared |-> {}, allowLookup |-> FALSE, expiry |-> 0, hasCache |-> FALSE, fileClient |-> FALSE, auto |-> FALSE, structs |-> <<>>]
+StructNames == {cfg.structs[i] : i \in DOMAIN cfg.structs}
 NoIni == [tried |-> {}, missing |-> 0, wait |-> 1, wake |-> Nil, deadline |-> Nil, flush |-> FALSE]
 
 Event(kind, rec) == [ev |-> kind] @@ rec
@@ -120,7 +122,8 @@ NewStore(c, bad, deadline, cc) ==      \* cc: the cache as the new store finds i
               /\ cache' = IF c.hasCache THEN cc ELSE [kind |-> "none", doc |-> NoDoc, wfail |-> FALSE]
               /\ hist' = [served |-> [n \in Names |-> IF doc[n] # Nil THEN {doc[n].ver} ELSE {}],
                           inst |-> [n \in Names |-> IF doc[n] # Nil THEN <<doc[n].ver>> ELSE <<>>],
-                          supplied |-> {n \in Names : doc[n] # Nil}]
+                          supplied |-> {n \in Names : doc[n] # Nil},
+                          polls |-> 0, pollErrs |-> 0, fetches |-> 0]
               /\ out' = Event("newstore", [stubs |-> Stubs(mm)])
   /\ UNCHANGED <<svc, poll, lk, rq, call, now>>
 
@@ -162,17 +165,20 @@ InitRoundEnd ==
   /\ IF Stubs(m) = {}
      THEN /\ phase' = "running" /\ ini' = NoIni
           /\ cache' = IF ini.flush THEN Flush(m) ELSE cache
+          \* after the flush the tagged struct fields are filled: one read of the secret per field (stamp, metric)
+          /\ m' = [n \in Names |-> IF n \in StructNames /\ IsRec(m[n]) THEN [m[n] EXCEPT !.la = Sec(now)] ELSE m[n]]
+          /\ hist' = [hist EXCEPT !.fetches = @ + Len(cfg.structs)]
           /\ out' = Event("ret", [call |-> "newstore", res |-> "ok", flushed |-> (ini.flush /\ Flushes)])
      ELSE IF cfg.fileClient
-     THEN /\ phase' = "failed" /\ ini' = NoIni /\ UNCHANGED cache
+     THEN /\ phase' = "failed" /\ ini' = NoIni /\ UNCHANGED <<cache, m, hist>>
           /\ out' = Event("ret", [call |-> "newstore", res |-> "err", flushed |-> FALSE])
      ELSE /\ ini' = [ini EXCEPT !.tried = {}, !.missing = 0,
                                 !.wake = IF InitCtxDone THEN now ELSE
                                          (IF ini.deadline # Nil /\ ini.deadline < now + ini.wait THEN ini.deadline ELSE now + ini.wait),
                                 !.wait = IF ini.wait < 4000 THEN 2 * ini.wait ELSE ini.wait]
           /\ out' = Event("sleep", [until |-> ini'.wake])
-          /\ UNCHANGED <<phase, cache>>
-  /\ UNCHANGED <<cfg, svc, m, handles, closed, poll, lk, rq, call, now, hist>>
+          /\ UNCHANGED <<phase, cache, m, hist>>
+  /\ UNCHANGED <<cfg, svc, handles, closed, poll, lk, rq, call, now>>
 
 InitWake ==
   /\ phase = "init" /\ ini.wake # Nil /\ now >= ini.wake
@@ -197,7 +203,8 @@ Refresh(c, deadline) ==
      ELSE poll' = [poll EXCEPT !.waiters = @ \cup {c}]
   /\ call' = IF c \in Callers THEN [call EXCEPT ![c] = [kind |-> "refresh", name |-> "", own |-> deadline, cancelled |-> FALSE, expired |-> FALSE, start |-> now, tries |-> 0, fallback |-> FALSE]] ELSE call
   /\ out' = Event("refresh", [caller |-> c, started |-> (poll = Nil)])
-  /\ UNCHANGED <<cfg, svc, m, handles, cache, phase, closed, ini, lk, rq, now, hist>>
+  /\ hist' = IF poll = Nil THEN [hist EXCEPT !.polls = @ + 1] ELSE hist        \* metric: polls initiated
+  /\ UNCHANGED <<cfg, svc, m, handles, cache, phase, closed, ini, lk, rq, now>>
 
 NoPollReq == ReqsBy("poll") = {}
 
@@ -248,7 +255,8 @@ ApplyTo(mm) ==
 PollFinish ==
   /\ poll # Nil /\ poll.todo = {} /\ NoPollReq
   /\ IF poll.failed
-     THEN /\ UNCHANGED <<m, cache, hist>>
+     THEN /\ UNCHANGED <<m, cache>>
+          /\ hist' = [hist EXCEPT !.pollErrs = @ + 1]                             \* metric: polls that failed
           /\ out' = Event("pollend", [res |-> "err", flushed |-> FALSE, waiters |-> poll.waiters])
      ELSE /\ m' = ApplyTo(m)
           /\ cache' = IF HasUpd THEN Flush(m') ELSE cache
@@ -274,7 +282,8 @@ Read(n) ==
   /\ n \in handles
   /\ m' = [m EXCEPT ![n].la = Sec(now)]
   /\ out' = Event("read", [name |-> n, ver |-> m[n].ver])
-  /\ UNCHANGED <<cfg, svc, handles, cache, phase, closed, ini, poll, lk, rq, call, now, hist>>
+  /\ hist' = [hist EXCEPT !.fetches = @ + 1]                                      \* metric: secret value fetches
+  /\ UNCHANGED <<cfg, svc, handles, cache, phase, closed, ini, poll, lk, rq, call, now>>
 
 (* --- lookups (C16) ----------------------------------------------------------------------------- *)
 \* A context ends when its deadline timer fires (CtxExpire) or it is cancelled; timers due at the same instant
@@ -434,7 +443,7 @@ Init ==
   /\ cfg = NoCfg /\ m = [n \in Names |-> Nil] /\ handles = {} /\ phase = "config" /\ closed = "open"
   /\ ini = NoIni /\ poll = Nil /\ lk = [n \in Names |-> Nil] /\ rq = NoReqs
   /\ call = [k \in Callers |-> Nil] /\ now = 0
-  /\ hist = [served |-> [n \in Names |-> {}], inst |-> [n \in Names |-> <<>>], supplied |-> {}]
+  /\ hist = [served |-> [n \in Names |-> {}], inst |-> [n \in Names |-> <<>>], supplied |-> {}, polls |-> 0, pollErrs |-> 0, fetches |-> 0]
   /\ out = [ev |-> "init"]
 
 (* --- properties ---------------------------------------------------------------------------------------- *)
